@@ -325,7 +325,7 @@ class Walker:
                         site = next(self.sites)
                         res = ("call", info["key"], info["def"], args, site, info["targs"])
                         elem = ("elem", args[0])
-                        cenv = {"$mem": env["$mem"], "$dec": {}, 1: clos}
+                        cenv = {"$mem": env["$mem"], "$dec": env["$dec"], 1: clos}
                         n_extra = cb.arg_count - 1
                         extra = [elem] if n_extra == 1 else [("acc", args[1]), elem][:n_extra]
                         for i, a in enumerate(extra):
@@ -339,6 +339,7 @@ class Walker:
                             ev2.append(("call", _site, _info["key"], _info["base_key"], _info["def"], _args, _info["targs"], _res))
                             e3 = dict(_env)
                             e3["$mem"] = env2["$mem"]
+                            e3["$dec"] = env2["$dec"]
                             self.write_place(_body, e3, _dest, _res, ev2)
                             if _tgt is None:
                                 self._finish(ev2, ("diverge", "loop"), None, e3)
@@ -348,6 +349,21 @@ class Walker:
                         return
                 site = next(self.sites)
                 res = model_call(info, args)
+                if info["key"] in ("Option<T>::ok_or_else", "Option<T>::ok_or") and len(args) == 2:
+                    # x.ok_or(e) / x.ok_or_else(f): Some(v) -> Ok(v), None -> Err(e); a local closure is evaluated for its value
+                    x = args[0]
+                    e = args[1]
+                    if info["key"].endswith("ok_or_else"):
+                        e = self._closure_value(args[1]) or ("call", "closure-value", None, [args[1]], site, [])
+                    cond = ("discr", x, ((0, "None"), (1, "Some")))
+                    payload = ("field", ("variant", x, "Some"), "0", 0, "?")
+                    res = ("fork", [(cond, 1, ("agg", "adt", "core::result::Result", "Ok", [payload])),
+                                    (cond, 0, ("agg", "adt", "core::result::Result", "Err", [e]))])
+                    xs = mir.strip_refs(x)
+                    if xs[0] == "agg" and xs[2] == "core::option::Option":
+                        res = res[1][0][2] if xs[3] == "Some" else res[1][1][2]
+                        if xs[3] == "Some":
+                            res = ("agg", "adt", "core::result::Result", "Ok", [xs[4][0]])
                 if isinstance(res, tuple) and res and res[0] == "fork":
                     opaque = ("call", info["key"], info["def"], args, site, info["targs"])
                     events.append(("call", site, info["key"], info["base_key"], info["def"], args, info["targs"], opaque))
@@ -396,6 +412,18 @@ class Walker:
             self._finish(events, ("diverge", "term:" + k), None, env)
             return
 
+    def _closure_value(self, clos, args=()):
+        """value returned by a local closure with a single straight path (used for `ok_or_else(|| ..)` and friends)"""
+        c0 = mir.strip_refs(clos)
+        if self.crate is None or c0[0] != "agg" or c0[1] != "closure" or c0[2] not in self.crate.bodies:
+            return None
+        w = Walker(self.crate.bodies[c0[2]], self.crate, self.inline, 50, self.inline_depth, self.auto_inline)
+        ps = w.run([c0] + list(args))
+        rets = [p for p in ps if p.outcome[0] == "return"]
+        if len(ps) == 1 and len(rets) == 1:
+            return rets[0].outcome[1]
+        return None
+
     def _auto_inlinable(self, cand, stack):
         if cand.key in ANCHORS or cand.key.split("::{closure")[0] in ANCHORS:
             return False
@@ -412,7 +440,7 @@ class Walker:
         return len(cand.blocks) <= 120
 
     def _inline(self, callee, args, t, body, env, events, stack, depth, cont, key):
-        cenv = {"$mem": env["$mem"], "$dec": {}}
+        cenv = {"$mem": env["$mem"], "$dec": env["$dec"]}
         for i, a in enumerate(args):
             cenv[i + 1] = a
         dest, tgt = t["dest"], t["t"]
@@ -420,6 +448,7 @@ class Walker:
         def k_after(ev2, ret, env2, _env=env, _dest=dest, _tgt=tgt, _body=body, _stack=stack, _depth=depth, _cont=cont):
             e3 = dict(_env)
             e3["$mem"] = env2["$mem"]
+            e3["$dec"] = env2["$dec"]
             self.write_place(_body, e3, _dest, ret, ev2)
             if _tgt is None:
                 self._finish(ev2, ("diverge", "inlined"), None, e3)
